@@ -33,7 +33,9 @@ def newCanvas (w h : Nat) : Canvas :=
   { geo := { W := w, H := h, wib := wib, bx := 0, byy := 0, bw := w, bh := h, inv := false },
     bytes := Array.replicate (wib * h) 0 }
 
-def Canvas.WF (c : Canvas) : Prop := c.geo.W ≤ c.geo.wib * 8 ∧ c.bytes.size = c.geo.wib * c.geo.H
+/-- well-formed canvas: the row stride covers the width and the buffer holds at least `wib·H` bytes
+(`NewImage`/`CreateFromImage` give exactly `wib·H`; `CreateFromBytes` installs the caller's slice, which may be longer). -/
+def Canvas.WF (c : Canvas) : Prop := c.geo.W ≤ c.geo.wib * 8 ∧ c.geo.wib * c.geo.H ≤ c.bytes.size
 
 def wMax (g : Geom) : Int := if g.bw + g.bx > g.W then g.W else g.bw + g.bx
 def hMax (g : Geom) : Int := if g.bh + g.byy > g.H then g.H else g.bh + g.byy
@@ -287,6 +289,15 @@ def renderText (ct : Canvas × TextSt) (s : List Nat) : Canvas × TextSt := s.fo
 def strWidth (t : TextSt) (s : List Nat) : Int :=
   s.foldl (fun w ch => w + (charWidth t ch : Int) * t.tsH + t.spacing) 0 - t.tsH
 
+/-- the LF-separated segments of a string (never empty: a string without LF is one line) -/
+def lines : List Nat → List (List Nat)
+  | [] => [[]]
+  | ch :: rest =>
+    if ch = 10 then [] :: lines rest
+    else match lines rest with
+      | [] => [[ch]]
+      | l :: ls => (ch :: l) :: ls
+
 /-- `LineHeight` (uint32 arithmetic) -/
 def lineHeight (t : TextSt) : Nat := ((t.tsV.emod 4294967296).toNat * t.fp.bbH) % 4294967296
 
@@ -329,5 +340,38 @@ def applyOp (c : Canvas) : Op → Canvas
   | .text t s => (renderText (c, t) s).1
   | .bbox x y w h => setBoundingBox c x y w h
   | .inv b => invertPixels c b
+
+/-! ## Commands of an image object: drawing operations plus the two (re)constructors that replace the buffer -/
+
+/-- `copy(dst, src)` -/
+def copyBytes (dst src : Array (BitVec 8)) : Array (BitVec 8) :=
+  Array.ofFn (n := dst.size) (fun i => if h : i.val < src.size then src[i.val] else dst[i])
+
+/-- `NewImage(w, h)` on an existing object: fresh zeroed buffer, bounding box = canvas; `init()` does not touch
+`invertPixels`, so the flag `inv` of the object survives. -/
+def newImageOn (inv : Bool) (w h : Nat) : Canvas :=
+  { geo := { (newCanvas w h).geo with inv := inv }, bytes := (newCanvas w h).bytes }
+
+/-- `CreateFromBytes(w, h, bytes)` on an object whose inversion flag is `inv`: the caller's slice is installed as the
+buffer when it holds at least `wib·h` bytes (**it may be longer**); otherwise the bytes present are copied into a fresh
+`wib·h` buffer (and an error is returned). -/
+def createFromBytesOn (inv : Bool) (w h : Nat) (bytes : Array (BitVec 8)) : Canvas :=
+  let c := newCanvas w h
+  { geo := { c.geo with inv := inv },
+    bytes := if c.geo.wib * h > bytes.size then copyBytes c.bytes bytes else bytes }
+
+inductive Cmd where
+  | op (o : Op)
+  | newImage (w h : Nat)
+  | fromBytes (w h : Nat) (bytes : Array (BitVec 8))
+
+def applyCmd (c : Canvas) : Cmd → Canvas
+  | .op o => applyOp c o
+  | .newImage w h => newImageOn c.geo.inv w h
+  | .fromBytes w h b => createFromBytesOn c.geo.inv w h b
+
+/-- what the (re)constructors do to the text state: `init()` = `SetFont(0, true)`, text size 1×1, wrap on; cursor, text
+colours and spacing are left as they are -/
+def initText (t : TextSt) : TextSt := { t with font := 0, prop := true, tsH := 1, tsV := 1, wrap := true }
 
 end RawPanelVerif.Mono
